@@ -18,4 +18,8 @@ EXTRA = {
     "C01_w7_seed_1": ["C03"], "C05_w7_seed_3": ["C07"], "C06_w7_seed_3": ["C19"], "C09_w7_seed_2": ["C19", "C14"], "C09_w7_seed_3": ["C18"],
     "C11_w7_seed_3": ["C19", "C14"], "C12_w7_seed_3": ["C02"], "C14_w7_seed_2": ["C19"], "C15_w7_seed_2": ["C19", "C14"], "C15_w7_seed_3": ["C02"],
     "C17_w7_seed_2": ["C16"], "C01_w7_seed_2": ["C02"], "C01_w7_seed_3": ["C10", "C03"], "C19_w7_seed_1": ["C18"], "C02_w7_seed_2": ["C14"], "C02_w7_seed_3": ["C14"], "C04_w7_seed_3": ["C16"], "C18_w7_seed_1": ["C14", "C19"],
+    # wave 8
+    "C15_w8_seed_2": ["C02"], "C09_w8_seed_2": ["C08"], "C03_w8_seed_2": ["C20", "C14"], "C06_w8_seed_1": ["C08"], "C09_w8_seed_1": ["C05"], "C01_w8_seed_1": ["C05"],
+    "C11_w8_seed_2": ["C19"], "C04_w8_seed_1": ["C08"], "C19_w8_seed_2": ["C02"], "C14_w8_seed_1": ["C09"], "C05_w8_seed_2": ["C06"], "C17_w8_seed_1": ["C02"],
+    "C17_w8_seed_2": ["C09"], "C08_w8_seed_1": ["C02"], "C19_w8_seed_1": ["C06"],
 }
